@@ -43,7 +43,13 @@ def run(ctx):
         for p in range(n):
             one[p, p] = rs.randn()
             for q in range(p + 1, n):
-                if not commuting: c = rs.randn() + (1j * rs.randn() if rng.random() < 0.3 else 0); one[p, q] = c; one[q, p] = np.conj(c)
+                if not commuting:
+                    # real, complex, purely imaginary (Peierls phase pi/2) and absent hoppings
+                    kind = rng.random()
+                    c = rs.randn() + (1j * rs.randn() if kind < 0.3 else 0)
+                    if 0.3 <= kind < 0.45: c = 1j * rs.randn()
+                    elif 0.45 <= kind < 0.5 and n > 2: c = 0.0
+                    one[p, q] = c; one[q, p] = np.conj(c)
                 v = rs.randn(); two[p, q] = two[q, p] = v
         return of.DiagonalCoulombHamiltonian(one, two, float(rs.randn()))
     def iop(nsp):
